@@ -56,17 +56,22 @@ fn implied_points(solver: Solver, cfg: &Cfg, lip: f64) -> f64 {
 }
 
 fn run_case(rep: &mut Report, solver: Solver, prob: &IvpProblem, cfg: &Cfg, mode: DimMode, stratum: &str) {
+    run_case_field(rep, solver, prob, cfg, mode, stratum, false)
+}
+
+/// `complex`: the problem (even dimension 2n) is solved over Complex<f64> with n components
+fn run_case_field(rep: &mut Report, solver: Solver, prob: &IvpProblem, cfg: &Cfg, mode: DimMode, stratum: &str, complex: bool) {
     let sname = solver.name();
     let pts_bound = implied_points(solver, cfg, prob.lip);
-    let kap = kappa(solver, prob.n);
+    let kap = kappa(solver, if complex { prob.n / 2 } else { prob.n });
     let implied_calls = kap * (pts_bound + 10.0);
     let budget = (20.0 * implied_calls) as u64;
     let opts = Opts { budget, max_items: (20.0 * pts_bound) as usize + 100, mode, order: ((cfg.t1.to_bits() >> 7) % 6) as u8, ..Default::default() };
-    let out = solve_real(solver, cfg, &prob.y0, prob, &opts);
+    let out = if complex { outcome_as_real(&solve_complex(solver, cfg, &pack_complex(&prob.y0), &ComplexOf { real: prob }, &opts)) } else { solve_real(solver, cfg, &prob.y0, prob, &opts) };
     rep.eval();
     rep.count(&format!("{}/solves", sname), 1);
     rep.count(&format!("{}/{}/solves", stratum, sname), 1);
-    let case = || J::obj().set("solver", sname).set("mode", format!("{:?}", mode)).set("stratum", stratum).set("cfg", cfg.to_json()).set("problem", prob.to_json());
+    let case = || J::obj().set("solver", sname).set("field", if complex { "Complex<f64> (state = first n + i last n components of the problem)" } else { "f64" }).set("mode", format!("{:?}", mode)).set("stratum", stratum).set("cfg", cfg.to_json()).set("problem", prob.to_json());
     if let Some((m, l)) = &out.panic {
         rep.violation(&format!("{}/panic", sname), case(), format!("solver panicked: '{}' at {}", m, l));
         return;
@@ -279,6 +284,21 @@ pub fn stages(ctx: &Ctx) -> Vec<Stage> {
     // at which the solver would have produced a point anyway, so the clipped final step is far
     // shorter than dt_min. It must simply be taken. (Round-3 seeded change C05-m9 turned exactly this
     // coincidence, probability ~ dt_min/step per random solve, into MinimumTimeDeltaExceeded.)
+    let ncx = ctx.tier.pick(1_800, 36_000);
+    st.push(Stage::new("complex", ncx, move |i, rep| {
+        let mut rng = Rng::for_case(seed, "c05-complex", i);
+        let solver = Solver::ADAPTIVE[(i % 6) as usize];
+        let n = 2 * (1 + rng.below(2));
+        let fl = rng.below(6);
+        let prob = IvpProblem::gen(&mut rng, n, fl);
+        let mut cfg = gen_cfg(&mut rng, solver, prob.lip, (-9.0, -3.0), (0.5, 2.5));
+        let f = rng.log10(0.0, 1.0);
+        cfg.dt_max *= f;
+        cfg.dt_min = cfg.dt_max * rng.log10(-8.0, -6.0);
+        cfg.t1 = cfg.t0 + cfg.dt_max * rng.log10(0.5, 2.3);
+        let mode = if rng.bool() { DimMode::Static } else { DimMode::Dynamic };
+        run_case_field(rep, solver, &prob, &cfg, mode, "complex", true);
+    }));
     let nsl = ctx.tier.pick(3_000, 60_000);
     st.push(Stage::new("end-just-past-a-step", nsl, move |i, rep| {
         let mut rng = Rng::for_case(seed, "c05-sliver", i);
@@ -329,6 +349,7 @@ pub fn thresholds(ctx: &Ctx, rep: &Report) -> Vec<Threshold> {
     let mut t = vec![];
     for s in Solver::ADAPTIVE {
         t.push(Threshold { what: format!("{}: solves with step variation >= 2x", s.name()), required: ctx.tier.pick(20.0, 1_000.0), observed: rep.counter(&format!("{}/solves_with_step_variation", s.name())) as f64 });
+        t.push(Threshold { what: format!("{}: solves over Complex<f64>", s.name()), required: ctx.tier.pick(200.0, 4_000.0), observed: rep.counter(&format!("complex/{}/solves", s.name())) as f64 });
         t.push(Threshold { what: format!("{}: estimator-limited tolerance pairs in the work-scaling stage", s.name()), required: ctx.tier.pick(30.0, 600.0), observed: rep.counter(&format!("{}/scaling_pairs", s.name())) as f64 });
     }
     t
